@@ -168,6 +168,13 @@ func (c *Characteristic) onValueUpdateFromConn(funcs []ConnChangeFunc, conn net.
 	}
 }
 
+// applyRange brings the value into the range of the characteristic after its minimum or maximum was changed.
+func (c *Characteristic) applyRange() {
+	if c.Value != nil {
+		c.updateValue(c.Value, nil, false)
+	}
+}
+
 func (c *Characteristic) clampFloat(value float64) interface{} {
 	min, minOK := c.MinValue.(float64)
 	max, maxOK := c.MaxValue.(float64)
